@@ -594,9 +594,16 @@ func (f *field) merge(t *field) {
 
 func (f *field) pattern() string {
 	var b strings.Builder
+	var esc bool // the unquoted text so far ends in a backslash that escapes nothing yet
 	for i := 0; i < len(f.b); i++ {
 		s := f.b[i]
 		if f.quote[i] {
+			if esc && s != "" {
+				// quoted text cannot be escaped once more: the backslash
+				// stands for itself
+				b.WriteByte('\\')
+				esc = false
+			}
 			for {
 				// also what is special inside a bracket expression
 				i := strings.IndexAny(s, `?*[\]!^-`)
@@ -611,6 +618,12 @@ func (f *field) pattern() string {
 			}
 		} else {
 			b.WriteString(s)
+			if s != "" {
+				esc = false
+			}
+			for j := len(s) - 1; j >= 0 && s[j] == '\\'; j-- {
+				esc = !esc
+			}
 		}
 	}
 	return b.String()
